@@ -480,6 +480,28 @@ type result struct {
 	events []event
 	infra  string // harness-level problem (not a verdict)
 	hung   string // a client API call did not return after the connection broke (outside C17, see C13)
+	// a line the server wrote in plaintext that offers an authentication mechanism (in a capability list: greeting
+	// code, CAPABILITY response, any response code)
+	plainAuth string
+}
+
+// offersAuth: does the line carry a capability list that offers credentials-bearing authentication?
+func offersAuth(ln string) bool {
+	up := strings.ToUpper(ln)
+	i := strings.Index(up, "CAPABILITY ")
+	if i < 0 || !(strings.HasPrefix(up, "* CAPABILITY ") || strings.Contains(up, "[CAPABILITY ")) {
+		return false
+	}
+	rest := up[i:]
+	if j := strings.IndexByte(rest, ']'); j >= 0 && strings.Contains(up, "[CAPABILITY ") {
+		rest = rest[:j]
+	}
+	for _, t := range strings.Fields(rest) {
+		if strings.HasPrefix(t, "AUTH=") {
+			return true
+		}
+	}
+	return false
 }
 
 func tagCmd(cs *caseT, tag string) string {
@@ -556,6 +578,9 @@ func runServer(cs *caseT) *result {
 			}
 			eof = true
 			break
+		}
+		if res.plainAuth == "" && offersAuth(ln) {
+			res.plainAuth = ln
 		}
 		f := strings.SplitN(ln, " ", 3)
 		if len(f) < 2 || f[0] == "*" || f[0] == "+" {
@@ -1129,10 +1154,22 @@ func nontrivial(cs *caseT) bool {
 }
 
 func judge(cs *caseT, r *result) *verdict {
+	if v := plainOffer(cs, r); v != nil {
+		return v
+	}
 	if cs.Side == "server" {
 		return compareServer(cs, r.events)
 	}
 	return compareClient(cs, r.events)
+}
+
+// plainOffer: a server that is not configured to take credentials in the clear must not offer to, in anything it
+// writes before TLS is active (the completion of STARTTLS included: it is written in plaintext)
+func plainOffer(cs *caseT, r *result) *verdict {
+	if cs.Side == "server" && r.plainAuth != "" && !cs.Cfg.InsecureAuth && !cs.Cfg.TLS {
+		return &verdict{"plaintext-offers-auth", fmt.Sprintf("the server wrote %q on the unencrypted connection (InsecureAuth is off)", r.plainAuth)}
+	}
+	return nil
 }
 
 // ---------------------------------------------------------------- modes
@@ -1405,6 +1442,9 @@ func cmdRandom(path string, seed int64, n, workers int) {
 		if r.hung != "" {
 			nhung++
 			hungEx = label(cases[i]) + ": " + r.hung
+		}
+		if v := plainOffer(cases[i], r); v != nil {
+			out.Mismatch(v.sig, label(cases[i])+" — "+v.detail, cases[i])
 		}
 		cenc.Encode(map[string]interface{}{"case": cases[i], "label": label(cases[i])})
 		for _, e := range r.events {
